@@ -375,6 +375,10 @@ def r10(ctx):
     ctx.check(found == {"next", "prev"}, "unlink:both-sides", "remove_at splices both neighbours (%s)" % sorted(found), rb.where(line=rb.line))
 
 
+def r11(ctx):
+    """'nothing is released merely because ... the connection dropped': see engine.session_start_resets."""
+    session_start_resets(ctx)
+
 RULES = [
     ("C03.R1", "T5", "records are removed only by clear_written/insert; clear_written only via the two confirm sites", r1),
     ("C03.R2", "T2", "release sites dominated by sequence-matched confirms", r2),
@@ -386,4 +390,5 @@ RULES = [
     ("C03.R8", "T2+T5", "Written set only after a successful write; selection/iteration state filters", r8),
     ("C03.R9", "T8+T2", "relative-time events: offset = time - CTO, only when representable and of equal time quality", r9),
     ("C03.R10", "T8/T2", "event storage: list sized over all types; unlinking splices both neighbours, each under its own test", r10),
+    ("C03.R11", "T2", "the selection is reset before a session's first await (a pre-empted session is dropped without clean-up)", r11),
 ]
